@@ -6,6 +6,7 @@ import (
 	"errors"
 	"fmt"
 	"io"
+	"regexp"
 	"os"
 	"path/filepath"
 	"runtime"
@@ -150,13 +151,14 @@ func (env *Env) Run(c *Case) *Result {
 		}
 		res.Before = Snap(snapRoot)
 		defer func() {
-			if restoreCwd != "" {
-				os.Chdir(restoreCwd)
-			}
 			if c.Opts.Massive {
 				// a massive-mode call may return while its workers are still running (subject of C11); let them
 				// finish so that late filesystem effects are part of this case's snapshot, not of the next one's
+				// (and happen while the working directory is still the jail's)
 				LeakScan(2 * time.Second)
+			}
+			if restoreCwd != "" {
+				os.Chdir(restoreCwd)
 			}
 			res.After = Snap(snapRoot)
 			if env.Chrooted {
@@ -177,6 +179,15 @@ func (env *Env) Run(c *Case) *Result {
 	var cancel context.CancelFunc = func() {}
 	var cancelled atomic.Bool
 	switch c.Cancel.Kind {
+	case "customctx":
+		// a context type of the caller's own (not one of the standard library's): never cancelled
+		ctx = &customCtx{Context: ctx, done: make(chan struct{})}
+	case "customctx-cancel":
+		cc := &customCtx{Context: ctx, done: make(chan struct{})}
+		ctx = cc
+		cancel = func() { cancelled.Store(true); cc.cancel() }
+		defer cancel()
+		cancel()
 	case "deadline":
 		ctx, cancel = context.WithDeadline(ctx, time.Now().Add(-time.Second))
 	case "":
@@ -279,7 +290,14 @@ func (env *Env) Run(c *Case) *Result {
 					node = nodes[c.UseSub]
 				}
 				for _, po := range c.PreOps {
-					runPreOp(po, nodes[0], base)
+					runPreOp(po, nodes[0], base, env.Scratch)
+				}
+				for _, s := range c.MidProg {
+					p := s.P
+					if p < 0 || p >= len(nodes) {
+						p = 0
+					}
+					nodes = append(nodes, nodes[p].Add(s.N))
 				}
 			}
 		}
@@ -362,6 +380,7 @@ func (env *Env) Run(c *Case) *Result {
 		return fmt.Errorf("verif: unknown op %q", c.Op)
 	}
 
+	before := goroutineIDs()
 	start := time.Now()
 	err := func() (err error) {
 		defer func() {
@@ -392,6 +411,10 @@ func (env *Env) Run(c *Case) *Result {
 	}
 	if c.Leak {
 		res.Leaked = LeakScan(3 * time.Second)
+		if res.Leaked == "" {
+			// goroutines without a gtree frame that the call left behind (e.g. started by the context package on its behalf)
+			res.Leaked = newGoroutineScan(before, 2*time.Second)
+		}
 	}
 	wr.mu.Lock()
 	res.Out = append([]byte{}, wr.buf...)
@@ -424,7 +447,7 @@ func (env *Env) Run(c *Case) *Result {
 }
 
 // runPreOp performs an earlier operation on the same node tree; whatever it returns is ignored (a panic is not).
-func runPreOp(op string, root *gtree.Node, jailBase string) {
+func runPreOp(op string, root *gtree.Node, jailBase, scratch string) {
 	switch op {
 	case "output":
 		gtree.OutputFromRoot(io.Discard, root)
@@ -454,12 +477,102 @@ func runPreOp(op string, root *gtree.Node, jailBase string) {
 			d = os.TempDir()
 		}
 		gtree.VerifyFromRoot(root, gtree.WithTargetDir(filepath.Join(d, "no-such-dir-for-preop")))
+	case "verify-noopt":
+		// no options at all: verifies against the current directory (read-only)
+		gtree.VerifyFromRoot(root)
+	case "yaml":
+		gtree.OutputFromRoot(io.Discard, root, gtree.WithEncodeYAML())
+	case "toml":
+		gtree.OutputFromRoot(io.Discard, root, gtree.WithEncodeTOML())
+	case "mkdir-elsewhere", "mkdir-elsewhere-massive":
+		// a real Mkdir of the same tree into a throw-away directory outside the jail of the case
+		if scratch == "" || scratch == "/" {
+			scratch = os.TempDir()
+		}
+		if d, err := os.MkdirTemp(scratch, "preop-mkdir-"); err == nil {
+			if op == "mkdir-elsewhere" {
+				gtree.MkdirFromRoot(root, gtree.WithTargetDir(d))
+			} else {
+				gtree.MkdirFromRoot(root, gtree.WithTargetDir(d), gtree.WithMassive(context.Background()))
+			}
+			os.RemoveAll(d)
+		}
 	case "verify-massive":
 		d := jailBase
 		if d == "" {
 			d = os.TempDir()
 		}
 		gtree.VerifyFromRoot(root, gtree.WithTargetDir(filepath.Join(d, "no-such-dir-for-preop")), gtree.WithMassive(context.Background()))
+	}
+}
+
+// customCtx is a context implementation outside the standard library (it has its own Done channel).
+type customCtx struct {
+	context.Context
+	done chan struct{}
+	once sync.Once
+	err  atomic.Value
+}
+
+func (c *customCtx) Done() <-chan struct{} { return c.done }
+func (c *customCtx) Err() error {
+	if e := c.err.Load(); e != nil {
+		return e.(error)
+	}
+	return nil
+}
+func (c *customCtx) cancel() {
+	c.once.Do(func() { c.err.Store(context.Canceled); close(c.done) })
+}
+
+var goroutineHeader = regexp.MustCompile(`(?m)^goroutine (\d+) \[`)
+
+func allStacksBytes() []byte {
+	buf := make([]byte, 1<<20)
+	for {
+		n := runtime.Stack(buf, true)
+		if n < len(buf) {
+			return buf[:n]
+		}
+		buf = make([]byte, 2*len(buf))
+	}
+}
+
+func goroutineIDs() map[string]bool {
+	ids := map[string]bool{}
+	for _, m := range goroutineHeader.FindAllSubmatch(allStacksBytes(), -1) {
+		ids[string(m[1])] = true
+	}
+	return ids
+}
+
+// newGoroutineScan reports goroutines that did not exist before the call and are still there after the settling period
+// (the harness starts none of its own during a call except short-lived timers, which disappear while we poll).
+func newGoroutineScan(before map[string]bool, settle time.Duration) string {
+	deadline := time.Now().Add(settle)
+	wait := 100 * time.Microsecond
+	for {
+		var left []string
+		for _, g := range bytes.Split(allStacksBytes(), []byte("\n\n")) {
+			m := goroutineHeader.FindSubmatch(g)
+			if m == nil || before[string(m[1])] {
+				continue
+			}
+			if bytes.Contains(g, []byte("verif/harness/ops.newGoroutineScan")) || bytes.Contains(g, []byte("verif/harness/ops.watchdog")) {
+				continue
+			}
+			left = append(left, string(g))
+		}
+		if len(left) == 0 {
+			return ""
+		}
+		if time.Now().After(deadline) {
+			return "goroutines started during the call and still alive:\n" + strings.Join(left, "\n\n")
+		}
+		time.Sleep(wait)
+		if wait < 50*time.Millisecond {
+			wait *= 2
+		}
 	}
 }
 
